@@ -9,6 +9,7 @@
 #include "cmd_simx.h"
 #include "cmd_mem.h"
 #include "cmd_fileio.h"
+#include "cmd_safe.h"
 #include "cmd_det.h"
 #include "cmd_util.h"
 #include "cmd_listing.h"
@@ -27,6 +28,7 @@ static void register_all()
   register_simx();
   register_mem();
   register_fileio();
+  register_safe();
   register_det();
   register_util();
   register_listing();
